@@ -10,6 +10,8 @@
      static_ops                        internal/hir/analysis/consteval.go arrayLiteralLengths + checkArrayBounds with
                                        the tracked length dropped on any other use of the variable (append's &'a)
      static_ops_stale                  the tracker before fixes/C08-append-len.patch (append keeps the length)
+     static_ops_byvalue                a tracker that keeps the length across calls taking the array by plain name
+                                       (wrong: dynamic arrays are handles, the callee can grow the caller's array)
      chan, ch_println, ch_exit,        libc stdout on a pipe (fully buffered) + runtime/libs/panic.c:
      ch_panic / ch_panic_noflush       fflush(stdout); fprintf(stderr); abort()   /   the same without the flush
      exec                              the generated code for one straight-line history
@@ -115,7 +117,12 @@ Inductive op :=
 | OGet (i : idx)              (* io::Println(a[i])  *)
 | OLen                        (* io::Println(len(a)) *)
 | OSGet (i : idx)             (* io::Println(s[i] as i32) *)
-| OPrint (v : Z).             (* io::Println(v)     *)
+| OPrint (v : Z)              (* io::Println(v)     *)
+(* the array handed by plain name to a user function (dynamic arrays are handles: the callee works on the caller's array) *)
+| OCallGrow (vs : list Z)     (* grow_k(a, vs..)   fn grow_k(xs: []i32, v0.., vk-1) { append(&'xs, v0); .. }  k >= 0 *)
+| OCallLen                    (* show_len(a)       fn show_len(xs: []i32) { io::Println(len(xs)); }   read only *)
+| OCallSet (i : idx) (v : Z)  (* set_T(a, i, v)    fn set_T(xs: []i32, i: T, v: i32) { xs[i] = v; } *)
+| OCallGet (i : idx).         (* io::Println(get_T(a, i))   fn get_T(xs: []i32, i: T) -> i32 { return xs[i]; } *)
 
 (* a program: `let s: str = <str>; let a := [init]; ops` *)
 Record prog := { p_str : list Z; p_init : list Z; p_ops : list op }.
@@ -145,6 +152,12 @@ Fixpoint static_ops (tracked : option Z) (ops : list op) : bool :=
   | OLen :: r => static_ops tracked r
   | OSGet _ :: r => static_ops tracked r
   | OPrint _ :: r => static_ops tracked r
+  (* walkExprConstEval, CallExpr: the identifier as an argument of anything but the builtin len is a use that
+     drops the remembered length — whatever the callee does, also when it only reads *)
+  | OCallGrow _ :: r => static_ops None r
+  | OCallLen :: r => static_ops None r
+  | OCallSet _ _ :: r => static_ops None r
+  | OCallGet _ :: r => static_ops None r
   end.
 
 Definition static_accepts (p : prog) : bool :=
@@ -158,6 +171,17 @@ Fixpoint static_ops_stale (tracked : option Z) (ops : list op) : bool :=
   | OSet i _ :: r => static_index_ok tracked i && static_ops_stale tracked r
   | OGet i :: r => static_index_ok tracked i && static_ops_stale tracked r
   | _ :: r => static_ops_stale tracked r
+  end.
+
+(* a tracker that keeps the length across calls taking the array by plain name ("a by-value argument is only read") *)
+Fixpoint static_ops_byvalue (tracked : option Z) (ops : list op) : bool :=
+  match ops with
+  | [] => true
+  | OLit xs :: r => static_ops_byvalue (Some (Z.of_nat (length xs))) r
+  | OAppend _ :: r => static_ops_byvalue None r
+  | OSet i _ :: r => static_index_ok tracked i && static_ops_byvalue tracked r
+  | OGet i :: r => static_index_ok tracked i && static_ops_byvalue tracked r
+  | _ :: r => static_ops_byvalue tracked r
   end.
 
 (* ---------------------------------------------------------------- output channel *)
@@ -206,6 +230,24 @@ Fixpoint exec (mem : list Z) (ops : list op) (a : rarr) (c : chan) : chan * stat
       | Some k => exec mem r a (ch_println c (nth (Z.to_nat k) mem 0))
       end
   | OPrint v :: r => exec mem r a (ch_println c v)
+  | OCallGrow vs :: r => exec mem r (fold_left rt_append vs a) c
+  | OCallLen :: r => exec mem r a (ch_println c (rt_len a))
+  | OCallSet i v :: r =>
+      match index_i32 (ix_ty i) (ix_val i) (rt_len a) with
+      | None => (ch_panic c, Panicked)
+      | Some k => match rt_set a k v with
+                  | Some a' => exec mem r a' c
+                  | None => (ch_panic c, Panicked)
+                  end
+      end
+  | OCallGet i :: r =>
+      match index_i32 (ix_ty i) (ix_val i) (rt_len a) with
+      | None => (ch_panic c, Panicked)
+      | Some k => match rt_get a k with
+                  | Some x => exec mem r a (ch_println c x)
+                  | None => (ch_panic c, Panicked)
+                  end
+      end
   end.
 
 (* accepted?, lines that reached the pipe, status *)
@@ -239,6 +281,18 @@ Fixpoint spec (str : list Z) (ops : list op) (l : list Z) (out : list Z) : list 
       then spec str r l (out ++ [nth (Z.to_nat (norm_index (ix_val i) n)) str 0])
       else (out, Panicked)
   | OPrint v :: r => spec str r l (out ++ [v])
+  | OCallGrow vs :: r => spec str r (l ++ vs) out
+  | OCallLen :: r => spec str r l (out ++ [Z.of_nat (length l)])
+  | OCallSet i v :: r =>
+      let n := Z.of_nat (length l) in
+      if valid_index (ix_val i) n
+      then spec str r (upd l (Z.to_nat (norm_index (ix_val i) n)) v) out
+      else (out, Panicked)
+  | OCallGet i :: r =>
+      let n := Z.of_nat (length l) in
+      if valid_index (ix_val i) n
+      then spec str r l (out ++ [nth (Z.to_nat (norm_index (ix_val i) n)) l 0])
+      else (out, Panicked)
   end.
 
 Definition spec_run (p : prog) : list Z * status := spec (p_str p) (p_ops p) (p_init p) [].
@@ -249,7 +303,7 @@ Definition idx_wf (i : idx) : bool := in_tyb (ix_ty i) (ix_val i).
 
 Definition op_wf (o : op) : bool :=
   match o with
-  | OSet i _ | OGet i | OSGet i => idx_wf i
+  | OSet i _ | OGet i | OSGet i | OCallSet i _ | OCallGet i => idx_wf i
   | _ => true
   end.
 
@@ -259,6 +313,7 @@ Fixpoint ops_size (ops : list op) : Z :=
   | [] => 0
   | OLit xs :: r => Z.of_nat (length xs) + ops_size r
   | OAppend _ :: r => 1 + ops_size r
+  | OCallGrow vs :: r => Z.of_nat (length vs) + ops_size r
   | _ :: r => ops_size r
   end.
 
